@@ -14,16 +14,30 @@
 //        MessageParse on packets of the encrypted-data kinds (tags 9, 18, 19, 20, unknown tags)
 //   pgpmsg.msg.dec <version> <sed><seipd><aead> <skalgo> <aeadalgo> <cs> <iv> <enc> <key> <ekey> <Elog> <sha1log> <openlog> => <ok 0|1> <out>
 //        TMCG_OpenPGP_Message::Decrypt; sha1log = [input:digest,…]
-//   pgpmsg.hash <kind> <version> <hashalgo> <a> <b> <c> <trailer> <hlog> => <ok> <hash> <left>
+//   pgpmsg.hash <kind> <version> <hashalgo> <a> <b> <c> <trailer> <hlog> => <hash> <left>
 //        the *Hash functions: kind bin|text|standalone|key|key2|cert ; (a,b,c) = (data,-,-) | (-,-,-) | (key,-,-) |
 //        (primary,subkey,-) | (key,uid,uat); hlog = [algo:input:digest,…]
 //   pgpmsg.validity <creation> <expiration> <hashalgo> <keycreation> <now> => <valid 0|1> <expired 0|1>
 //        TMCG_OpenPGP_Signature::CheckValidity (now = time(NULL), the same before and after the call)
 //   pgpmsg.verify <kind> <version> <type> <pkalgo> <hashalgo> <creation> <hspd> <left> <qbits> <rbits> <sbits> <a> <b> <c> <hlog> <pklog> => <ok 0|1>
-//        TMCG_OpenPGP_Signature::Verify…/VerifyData: kind data|standalone|key|key2|uid|uat; hlog as above;
+//        TMCG_OpenPGP_Signature::Verify…/VerifyData: kind data|datalit|standalone|key|key2|uid|uat ((a,b,c) = (data,-,-) |
+//        (data,filename,format‖time) | (-,-,-) | (key,-,-) | (primary,subkey,-) | (key,uid,-) | (key,uat,-)); hlog as above;
 //        pklog = [canonical data S-expression : rc] of the gcry_pk_verify calls
 //   prop.pgpmsg sym <what> algo=<a> mode=<cfb|eax|ocb> cs=<c> len=<n> tag:<class> => <ok|refused> <eq 0|1>
-//   prop.pgpmsg sig <pk> <version> <type> hash=<h> len=<n> tag:<class> => <ok|refused>
+//        verdict of the real library on one (possibly tampered) cipher text: what = cfb (raw routines) | seipd | sed | mdc |
+//        aead (raw routines) | aead1 (one-shot form, |ad| = 4) | aeadmsg (MessageParse + Decrypt); eq = the plaintext came back
+//        classes: honest[:…] | empty | flip:<where>:<pos> | reorder:<i>-<j> | duplicate:<i> | truncate[:…] | drop-final | iv |
+//        ad:<i> | ad:chunksize-both | key[:checksum] | nomdc:<how> | wrongmdc | emptybody | framing:<how> | garbage
+//   prop.pgpmsg sig <key> v<version> <type> hash=<h> len=<n> tag:<class> => <ok|refused> same=<0|1>
+//        verdict on one signature: classes honest[:…] | flip:sig-<header|hashed|unhashedlen|left16|mpilen|value|v3>:<pos> |
+//        flip:<doc|text|key|subkey|uid|uat|literal-…>:<pos> | append:doc | cut:doc | otherkey | swap:keys | uid-as-uat |
+//        v5:… | v3:uat | weakhash | expired | olderthankey | future (the last four: Verify and CheckValidity both needed);
+//        same = the parsed packet is the same signature (all fields that enter verification) as the untouched one
+//   prop.pgpmsg keyblock <key> hash=<h> tag:<class> => <ok|refused> same=<0|1>     PublicKeyBlockParse + CheckSelfSignatures
+//   prop.pgpmsg sigtime … / filehash … / aead-nonces … / sig-emptyhash … / sym vla0-shape …     informational (see the report)
+// Options: --part sym|sig|pk ; --tier thorough ; probes run in a child process: --emptyhash (signature with an unknown hash
+//   algorithm octet), --vla0 (AEAD cipher text cut 32 octets behind a chunk), --bigchunk (chunk size octet 17);
+//   --dump-accepted, --probe-header (diagnostics for accepted signature packet changes)
 #include "common.hh"
 #include "libTMCG_config.h"
 #include <dlfcn.h>
@@ -929,6 +943,37 @@ static void keyblock_cases(SplitMix &g, const TestKey &k, int hashalgo, bool all
 	{ Oct u2; PGP::PacketUidEncode("Mallory <m@example.org>", u2); line("swap:uid", keyblock_verdict(cat(cat(k.pkt, u2), sigpkt))); }
 }
 
+// ---- messages to a public key: the session key through AsymmetricEncryptRSA / AsymmetricDecryptRSA and
+//      AsymmetricEncryptElgamal / AsymmetricDecryptElgamal (verdict lines only: the public-key operation is libgcrypt's)
+static void pk_cases(SplitMix &g)
+{
+	TestKey rsa = load_key("rsa", 1, KEY_RSA);
+	gcry_sexp_t elg = NULL, parms = NULL; size_t erroff;
+	if (!gcry_sexp_build(&parms, &erroff, "(genkey (elg (nbits 4:1024)))")) { if (gcry_pk_genkey(&elg, parms)) elg = NULL; gcry_sexp_release(parms); }
+	for (int which = 0; which < 2; which++) {
+		if (which == 1 && !elg) continue;
+		const char *pkname = which ? "elgamal" : "rsa";
+		for (int rep = 0; rep < 2; rep++) {
+			int algo = rep ? 7 : 9; size_t ks = PGP::AlgorithmKeyLength((tmcg_openpgp_skalgo_t)algo);
+			Oct k = rnd_octets(g, ks), prefix = make_prefix(g, 16), lit = lit_packet(rnd_octets(g, 1 + g.below(60))); std::string key((const char*)k.data(), ks);
+			SOct wk = wrap_key(algo, key); Oct pkt; PGP::PacketSeipdEncode(seipd_body(algo, key, prefix, lit, true), pkt);
+			gcry_mpi_t a = gcry_mpi_new(2048), b = gcry_mpi_new(2048); gcry_error_t e = which ? PGP::AsymmetricEncryptElgamal(wk, elg, a, b) : PGP::AsymmetricEncryptRSA(wk, rsa.key, a);
+			if (e) { emit(std::string("# public-key encryption failed: ") + pkname); gcry_mpi_release(a); gcry_mpi_release(b); continue; }
+			auto attempt = [&](gcry_mpi_t a2, gcry_mpi_t b2, const std::string &tag) {
+				SOct back; gcry_error_t d = which ? PGP::AsymmetricDecryptElgamal(a2, b2, elg, back) : PGP::AsymmetricDecryptRSA(a2, rsa.key, back);
+				bool ok = false, eq = false;
+				if (!d) { MsgView v; msg_parse(pkt, v, tag); Oct out; if (v.ok) ok = msg_decrypt(v.msg, back, out, tag); eq = ok && out.size() >= lit.size() && std::equal(lit.begin(), lit.end(), out.begin()); }
+				emit(std::string("prop.pgpmsg sym pkesk-") + pkname + " algo=" + std::to_string(algo) + " mode=cfb cs=0 len=" + std::to_string(lit.size()) + " tag:" + tag + " => " + (ok ? "ok" : "refused") + " " + (eq ? "1" : "0")); };
+			attempt(a, b, "honest");
+			unsigned nb = gcry_mpi_get_nbits(a);
+			for (int i = 0; i < 6; i++) { unsigned bit = i == 0 ? 0 : g.below(nb); gcry_mpi_t a2 = gcry_mpi_copy(a); if (gcry_mpi_test_bit(a2, bit)) gcry_mpi_clear_bit(a2, bit); else gcry_mpi_set_bit(a2, bit); attempt(a2, b, "flip:esk:" + std::to_string(bit)); gcry_mpi_release(a2); }
+			if (which) for (int i = 0; i < 4; i++) { unsigned bit = g.below(gcry_mpi_get_nbits(b)); gcry_mpi_t b2 = gcry_mpi_copy(b); if (gcry_mpi_test_bit(b2, bit)) gcry_mpi_clear_bit(b2, bit); else gcry_mpi_set_bit(b2, bit); attempt(a, b2, "flip:esk2:" + std::to_string(bit)); gcry_mpi_release(b2); }
+			gcry_mpi_release(a); gcry_mpi_release(b);
+		}
+	}
+	if (elg) gcry_sexp_release(elg);
+}
+
 // the file variants of the document hashes (HashComputeFile) against the in-memory ones: verdict lines only
 static void filehash_cases(SplitMix &g)
 {
@@ -1119,6 +1164,7 @@ static int drv_pgpmsg(const Opts &o)
 	}
 	if (part == "all" || part == "sym") rc |= drv_pgpmsg_sym(o, g);
 	if (part == "all" || part == "sig") rc |= drv_pgpmsg_sig(o, g);
+	if (part == "all" || part == "pk") pk_cases(g);
 	return rc;
 }
 REGISTER_DRIVER("pgpmsg", drv_pgpmsg);
